@@ -127,7 +127,12 @@ func vfFold(shadow map[string]*crew.Machine, r *Result) {
 // vfSpecCanon renders a spec source modulo compilation.
 func vfSpecCanon(src *crew.SpecSource) string {
 	if src == nil {
-		return "nil"
+		return "none"
+	}
+	if src.Inline == nil && src.URL == "" {
+		// a source without text or location resolves to no specification (the crew keeps no
+		// source for such a machine): the same as none
+		return "none"
 	}
 	if src.Inline == nil {
 		return "name:" + src.Name + " url:" + src.URL
@@ -270,6 +275,11 @@ func runC15(c *sim.Ctx, t *testing.T) {
 			// states come from a small pool, so a machine can return to exactly a state it was in before
 			st := map[string]interface{}{"node": "start", "bs": map[string]interface{}{"log": []interface{}{map[string]interface{}{"id": []string{"resetA", "resetB"}[c.Intn(2, "statepool")]}}}}
 			ops = append(ops, vfOp{kind: "state", mid: mid, msg: map[string]interface{}{"to": "captain", "update": map[string]interface{}{mid: map[string]interface{}{"state": st}}}})
+		case k == 2 && c.Chance(1, 4, "specbyname"):
+			// a spec source that names a spec but carries neither text nor location: whatever the
+			// crew makes of it, the machine and the report must agree
+			src := []interface{}{map[string]interface{}{"name": "double"}, map[string]interface{}{}}[c.Intn(2, "emptysrc")]
+			ops = append(ops, vfOp{kind: "specbyname", mid: mid, msg: map[string]interface{}{"to": "captain", "update": map[string]interface{}{mid: map[string]interface{}{"spec": src}}}})
 		case k == 2:
 			ops = append(ops, vfOp{kind: "spec", mid: mid, msg: map[string]interface{}{"to": "captain", "update": map[string]interface{}{mid: map[string]interface{}{"spec": map[string]interface{}{"inline": vfSpecJSON(1 + c.Intn(2, "version"))}}}}})
 		case k == 12 && !exists[mid] && c.Bool("badcreate"):
